@@ -903,7 +903,7 @@ static std::string blame(const Basic &e, int ev)
         if (lv.status == 0 && compare(lv, r, d) == FAIL)
             return blame(*a, ev);
     }
-    return node_class(e);
+    return type_code_name(e.get_type_code()); // defect class = evaluator + node type (argument kinds are in the description)
 }
 
 enum {
@@ -1017,7 +1017,11 @@ static void check_term(const B &e, const std::string &recipe, Ctx &c)
         c.count(K_COMPARISONS);
         std::string detail;
         if (compare(lv[ev], ref, detail) == FAIL)
-            c.violation(std::string(EVN[ev]) + ":" + blame(*e, ev), recipe + " = " + sstr(e) + " [" + key(*e) + "]: " + EVN[ev] + " " + detail);
+            {
+            std::string culprit = blame(*e, ev);
+            c.violation(std::string(EVN[ev]) + ":" + culprit, recipe + " = " + sstr(e) + " [" + key(*e) + "]: " + EVN[ev] + " " + detail
+                                                                   + " (innermost disagreeing node: " + culprit + ")");
+        }
     }
     // evalf(.,Real) is eval_double by definition: bit-identical
     for (int ev : {EVR53, EVR20})
